@@ -315,6 +315,10 @@ def check_C03(rep, prog, tier):
     cases += _bcases([('FF', [1, 2])] if tier == 'quick' else [('FF', [1, 2]), ('FS', [1, 0])], ['crash'], prior='same')
     # a history with two interruptions: an earlier run died before writing its band head, the run under test dies anywhere
     cases += _bcases([('F', [1])], ['crash'], prior='built', prior_kinds='FF', prior_classes=[2, 3], headless_above=True)
+    # nested names: a subdirectory that sorts (as a string) before a later top-level name, two entries per hunk, so that a hunk of
+    # the interrupted band ends inside the subdirectory and the resume point matters in apath order
+    cases.append(dict(kinds='DFFFD', classes=[0, 1, 2, 3, 0], mode='crash', prior='same', paths=['/d', '/f', '/g', '/d/e', '/d/sub'],
+                      sizes=[0, 5, 6, 7, 0], fixed_opts=(64, 16, 2)))
     rep.bounds = {'cases': [BC.case_name(c) for c in cases],
                   'crash_points': 'before every storage step k of the backup, and inside every write (empty file left); k solver-chosen',
                   'follow_up': 'after each crash: list every version with the real Stitch, run the backup again, check it'}
@@ -407,6 +411,12 @@ def check_C14(rep, prog, tier):
     cases = _bcases(shapes, ['none'], prior='same', expect_no_block_writes=True)
     cases += _bcases([('FF', [1, 2])] if tier == 'quick' else [('FF', [1, 2]), ('FF', [1, 1])], ['crash'])
     cases += _bcases([('F', [1])] if tier == 'quick' else [('FF', [1, 2])], ['crash', 'empty_crash', 'fault'], prior='same')
+    # a group that mixes combined small files with directly recorded entries (empty files), two entries per hunk: the resumed
+    # run must cut the tree into the same combined blocks as the interrupted run did
+    cases.append(dict(kinds='FFFFF', classes=[1, 2, 3, 4, 5], mode='crash', sizes=[5, 0, 6, 0, 7], fixed_opts=(64, 16, 2)))
+    if tier != 'quick':
+        cases.append(dict(kinds='FFFFF', classes=[1, 2, 3, 4, 5], mode='crash', sizes=[5, 0, 6, 0, 7], fixed_opts=(64, 16, 3)))
+        cases.append(dict(kinds='FDFSF', classes=[1, 0, 3, 0, 5], mode='crash', sizes=[5, 0, 6, 0, 7], fixed_opts=(64, 16, 2)))
     rep.bounds = {'cases': [BC.case_name(c) for c in cases]}
     rep.assumptions += BC.COMMON_ASSUMPTIONS
     BC.run_cases(rep, prog, cases, dl, 'C14', 'unchanged tree: no block written and identical addresses; no stored block is ever written again, also when resuming after a crash',
